@@ -682,6 +682,17 @@ func runClient(r *common.Run, c cliCase, class string) error {
 			}
 		}
 	}
+	if authn {
+		onWire := false
+		for _, x := range sent {
+			if strings.HasPrefix(x, "auth/") {
+				onWire = true
+			}
+		}
+		if !onWire {
+			r.Fail("client-authn-auth-not-sent", "no-auth-on-wire", lines, "authenticated although no <auth/> element reached the connection")
+		}
+	}
 	if authn && !t.usedSet {
 		r.Fail("client-mechanism-selection", "authn-without-mechanism", lines, "authenticated although no mechanism ran")
 	}
